@@ -4,7 +4,7 @@ package ipnisync
 
 // Contracts for the deductive checks in /verif (comment-only; no code).
 
-//@ nonnil log
+//@ nonnil log ErrNoHTTPServer
 
 // ---------------------------------------------------------------------------
 // C03: a chain head is accepted only when signed by the expected publisher
@@ -90,7 +90,7 @@ package ipnisync
 // The constructor always returns a client (used by dagsync.NewSubscriber: C15).
 //@ func NewSync
 //@   property C15
-//@   ensures result != nil && isfresh(result)
+//@   ensures result != nil && isfresh(result) && result.clientHost != nil && !held(result.clientHostMutex)
 
 // ---------------------------------------------------------------------------
 // C01/C02: which blocks reach the block hook
@@ -171,3 +171,22 @@ package ipnisync
 //@   requires privKey != nil
 //@   at call NewSignedHead#1: assert arg0 == rootCid && str(arg1) == str(topic) && arg2 == privKey
 //@   ensures-local result1 == nil ==> count("call:NewSignedHead") == 1 && count("call:Encode") == 1 && before("call:NewSignedHead", "call:Encode")
+
+// ---------------------------------------------------------------------------
+// NewSyncer (C03/C04): the syncer made for a publisher keeps that publisher's identity (it is what
+// GetHead compares the head's signer with), has a client, and at least the root URL.
+//@ func (*Sync).NewSyncer
+//@   property C03
+//@   opaque-interior-pointers "the syncer's *http.Client may be the address of Sync.client or of a local; module code only calls methods on it"
+//@   requires s != nil && s.clientHost != nil && !held(s.clientHostMutex)
+//@   modifies s.client, s.clientHostMutex, elems(peerInfo.Addrs)
+//@   ensures result1 == nil ==> result0 != nil && isfresh(result0) && result0.sync == s
+//@   ensures result1 == nil ==> result0.peerInfo.ID == peerInfo.ID
+//@   ensures result1 == nil ==> result0.client != nil
+//@   ensures result1 == nil ==> nonnilelems(result0.urls)
+//@   ensures result1 != nil ==> result0 == nil
+//@   loop 1: invariant rangeindex < len(peerInfo.Addrs) && len(urls) == len(peerInfo.Addrs)
+//@   loop 1: invariant forall(j, 0, rangeindex + 1, urls[j] != nil)
+//@   loop 1: invariant peerInfo.ID == old(peerInfo.ID)
+//@   loop 1: invariant httpClient != nil
+//@   loop 1: invariant len(peerInfo.Addrs) >= 1 && isfresh(urls)
